@@ -1,8 +1,8 @@
 /*@harness
-{"tier":"quick","mode":"bounded(4 heart-beat objects, one round (tick), up to 2 set_heart_beat operations on arbitrary objects inside every heart_beat call)","tus":["src/backend.c"],"include_tu":true,"dfcc":false,
+{"tier":"quick","mode":"bounded(2 heart-beat objects, one round (tick), up to 1 set_heart_beat operation on arbitrary objects inside every heart_beat call)","tus":["src/backend.c"],"include_tu":true,"dfcc":false,
  "functions":["call_heart_beat","set_heart_beat"],
  "stub_out":["look_for_objects_to_swap"],
- "flags":["--bounds-check","--pointer-check"],"unwind":6,"timeout":900,
+ "flags":["--bounds-check","--pointer-check"],"unwind":9,"timeout":900,
  "expect":["h_heart_beat_round.assertion","call_function.assertion","call_heart_beat.pointer_dereference","set_heart_beat.pointer_dereference"],
  "native":{"rename":["time","memmove"]},
  "assumptions":["call_function() is the LPC heart_beat(): modelled as up to two set_heart_beat(any object, 0/1/n) calls (enable, disable, re-time, also on itself) - destruct_object's effect on the list is set_heart_beat(ob,0)",
@@ -14,7 +14,7 @@
 #include "backend.c"          /* scratch copy of the real TU: the heart-beat list is file-static */
 #endif
 #include "vharness.h"
-#define NOBJ 4
+#define NOBJ 2
 static object_t O[NOBJ]; static program_t PR[NOBJ];
 static int G_calls[NOBJ];            /* heart_beat() invocations this round */
 static int G_disabled_at[NOBJ];      /* object was switched off (or destructed) during the round */
@@ -47,7 +47,7 @@ void call_function(program_t *progp, int runtime_index, int num_args, svalue_t *
   V_ASSERT(O[k].flags & O_HEART_BEAT, "heart_beat() is only called on an object whose heart beat is enabled");
   V_ASSERT(!G_disabled_at[k], "an object that switched its heart beat off (or was destructed) is not called again in this round");
   if (G_calls[k] < 10) G_calls[k]++;
-  V_DECL(int, nops); V_ASSUME(0 <= nops && nops <= 2);
+  V_DECL(int, nops); V_ASSUME(0 <= nops && nops <= 1);
   if (nops >= 1) one_op();
   if (nops >= 2) one_op();
   V_DECL(int, timer_fires); if (timer_fires) { heart_beat_flag = 1; G_truncated = 1; }
@@ -83,5 +83,5 @@ void h_heart_beat_round(void) {
   V_DECL(int, g); V_ASSUME(0 <= g && g < NOBJ);
   int cnt = 0; for (int i = 0; i < 8; i++) if (i < num_hb_objs && arr[i].ob == &O[g]) cnt++;
   V_ASSERT(cnt == ((O[g].flags & O_HEART_BEAT) ? 1 : 0), "an object is in the list exactly once iff its heart-beat flag is set");
-  V_COVER(G_calls[0] == 1 && G_calls[1] == 1 && G_calls[2] == 1 && G_calls[3] == 1); V_COVER(G_truncated); V_COVER(n0 == 4 && num_hb_objs == 2);
+  V_COVER(G_calls[0] == 1 && G_calls[1] == 1); V_COVER(G_truncated); V_COVER(n0 == 2 && num_hb_objs == 1);
 }
